@@ -354,7 +354,13 @@ func (e *Engine) feasible(st *State) bool {
 	}
 	q := &smt.Query{}
 	q.Asserts = append(q.Asserts, e.axioms...)
-	q.Asserts = append(q.Asserts, st.pc...)
+	for _, p := range st.pc {
+		// quantified literals are left out: feasibility is only used to prune, so an over-approximation is sound, and
+		// they are what makes these (many, small) queries slow
+		if !e.C.HasQuantifier(p) {
+			q.Asserts = append(q.Asserts, p)
+		}
+	}
 	if e.C.Size(q) < 40 {
 		return true
 	}
